@@ -31,11 +31,11 @@ def c20(ctx: Ctx):
     if ctx.replay:
         write_ndjson(cases, [ctx.replay["violation"]["c"]])
     else:
-        maxmut, stride = (1, 1) if ctx.tier == "quick" else (2, 16)
+        maxmut, stride = (1, 1) if ctx.tier == "quick" else (2, 32)
         cfg = ("SPECIFICATION Spec\nCONSTANTS NNodes = %d\n MaxMut = %d\n PairStride = %d\n Seed = %d\nINVARIANT Emit\nCHECK_DEADLOCK FALSE\n"
                % (nn, maxmut, stride, ctx.seed))
         open(ctx.spec("Gen_C20_run.cfg"), "w").write(cfg)
-        ctx.tlc("Gen_C20", "Gen_C20_run.cfg", label="F generate mutation sequences (BFS)")
+        ctx.tlc("Gen_C20", "Gen_C20_run.cfg", label="F generate mutation sequences (BFS)", timeout=2400)
         n = ctx.unquote(ctx.spec("cases.ndjson"), cases)
         if ctx.tier == "thorough":
             # the pair level is large: keep every single mutation and a seeded 12% of the pairs
